@@ -50,6 +50,7 @@ class Report:
         self.errors = []        # dicts: id severity msg verbose cwe inconclusive locations[(file,line,info)] file0
         self.files = {}         # relative path -> ('text', str) | ('binary', bytes) | ('dir', None) | ('dangling', None)
         self.nlines = {}        # readable text file -> number of lines
+        self.kinds = {}         # every referenced file -> text|missing|binary|dir|dangling|empty|crlf|nonl
         self.xml = ''
 
     def readable(self, f):
@@ -85,11 +86,13 @@ def _file_pool(rng, rep, n):
             rep.files[name] = ('dir', None)
         elif kind == 'dangling':
             rep.files[name] = ('dangling', None)
+        rep.kinds[name] = kind
         pool.append(name)
     return pool
 
 
-def gen(rng, nmax=300, html_in_annotations=False, html_in_ids=False, html_in_files=False, html_in_severity=False):
+def gen(rng, nmax=300, html_in_annotations=False, html_in_ids=False, html_in_files=False, html_in_severity=False,
+        multiline_verbose_in_annotations=False):
     """html_in_* = False are generator exclusions named by known findings of C36 (known/C36.txt)."""
     rep = Report()
     n = rng.choice([0, 1, 2, rng.randint(3, 12), rng.randint(3, 40), rng.randint(0, nmax)])
@@ -130,7 +133,8 @@ def gen(rng, nmax=300, html_in_annotations=False, html_in_ids=False, html_in_fil
         if r < 0.5:
             e['verbose'] = msg
         elif r < 0.9:
-            e['verbose'] = msg + ' ' + text(rng, html=html_ok) + rng.choice(['', '\\012second line'])
+            ml = multiline_verbose_in_annotations or not annotated
+            e['verbose'] = msg + ' ' + text(rng, html=html_ok) + (rng.choice(['', '\\012second line']) if ml else '')
         # else no verbose attribute
         if rng.random() < 0.3:
             e['cwe'] = str(rng.choice([398, 476, 561, 788, 119]))
